@@ -62,6 +62,20 @@ class Ref:
         return frozenset(i for i in range(self.n)
                          if all(self.rows[i][j] for j in props))
 
+    def intent_of_sets(self, objs):
+        """A' as the intersection of the rows' property sets (used on wide tables,
+        cross-checked against the definitional form in the self test)."""
+        res = self.M
+        for i in objs:
+            res = res & self._row_int[i]
+        return res
+
+    def extent_of_sets(self, props):
+        res = self.G
+        for j in props:
+            res = res & self._col_ext[j]
+        return res
+
     def closure_objs(self, objs):
         return self.extent_of(self.intent_of(objs))
 
